@@ -473,7 +473,16 @@ impl<'a> Gen<'a> {
                             args.push(BindArg::Str(self.r.pick(&["w", "1", "-", "x y"]).to_string()));
                         }
                     }
-                    let out = self.fresh("c");
+                    // mostly a fresh name; a numeric BIND sometimes takes a pattern variable that
+                    // is not yet in scope of this group, so that other groups (or later
+                    // elements) bind the same variable and the BIND takes part in a join
+                    let out = match (numeric_mode && self.r.chance(1, 3)).then(|| self.pool_var()) {
+                        Some(v) if !sc.contains_key(&v) => {
+                            self.features.insert("bind_target_bound_elsewhere_too".into());
+                            v
+                        }
+                        _ => self.fresh("c"),
+                    };
                     let certain = args.iter().all(|a| match a {
                         BindArg::Str(_) => true,
                         BindArg::Var(v) => sc.get(v).map(|i| i.certain).unwrap_or(false),
@@ -520,7 +529,8 @@ impl<'a> Gen<'a> {
             for v in &gvars {
                 out.insert(v.clone(), sc[v]);
             }
-            let na = self.r.range(1, 2);
+            // sometimes no aggregate at all (plain grouping), when there is a key to project
+            let na = if ng >= 1 && self.r.chance(1, 5) { 0 } else { self.r.range(1, 2) };
             for _ in 0..na {
                 let (av, ai) = self.r.pick(&nums).clone();
                 let a = *self.r.pick(&[Agg::Sum, Agg::Min, Agg::Max, Agg::Avg]);
@@ -535,19 +545,21 @@ impl<'a> Gen<'a> {
                 out.insert(alias.clone(), VInfo { certain, kind: Kind::Num });
                 items.push(ProjItem::Agg(a, av, alias));
             }
-            if !items.iter().any(|i| matches!(i, ProjItem::Agg(..))) {
-                // could not place an aggregate in core mode: plain projection of group vars
-                if items.is_empty() {
-                    q.proj = Proj::Star;
-                    out = sc.clone();
-                } else {
-                    q.proj = Proj::Items(items);
-                    q.distinct = true;
-                }
-            } else {
-                q.group_by = gvars;
-                q.proj = Proj::Items(items);
+            // a group key need not be projected, and the projection order is free
+            if gvars.len() >= 1 && items.len() >= 2 && self.r.chance(1, 4) {
+                let drop = self.r.pick(&gvars).clone();
+                items.retain(|i| !matches!(i, ProjItem::Var(v) if *v == drop));
+                out.remove(&drop);
+                self.features.insert("group_key_not_projected".into());
             }
+            if self.r.chance(1, 3) {
+                self.r.shuffle(&mut items);
+            }
+            if na == 0 {
+                self.features.insert("group_by_without_aggregate".into());
+            }
+            q.group_by = gvars;
+            q.proj = Proj::Items(items);
         } else if vars.is_empty() || self.r.chance(1, 5) {
             q.proj = Proj::Star;
             out = sc.clone();
